@@ -358,8 +358,15 @@ def stage_limits(wd, V, rng, tier):
         exe = _BINS["dcat"]
         cfgp = os.path.join(base, "cats%d.json" % k)
         json.dump({"Server": {"MaxConcurrentCats": k, "MaxConcurrentTails": 50}}, open(cfgp, "w"))
-        p = subprocess.run([exe, "--cfg", cfgp, "--noColor", "--logDir", os.path.join(base, "log"), "--files", os.path.join(d, "*.log")],
-                           stdin=subprocess.DEVNULL, stdout=subprocess.PIPE, stderr=subprocess.PIPE, timeout=120, env=vlib.goenv({"HOME": base}))
+        try:
+            p = subprocess.run([exe, "--cfg", cfgp, "--noColor", "--logDir", os.path.join(base, "log"), "--files", os.path.join(d, "*.log")],
+                               stdin=subprocess.DEVNULL, stdout=subprocess.PIPE, stderr=subprocess.PIPE, timeout=90, env=vlib.goenv({"HOME": base}))
+        except subprocess.TimeoutExpired as e:
+            best, nsrc = max_active_sources(e.stdout or b"")
+            V.violation("serverless dcat of %d files with MaxConcurrentCats=%d did not finish within 90 s (%d files were delivered): reads that wait for a "
+                        "slot never proceed" % (nfiles, k, nsrc), {"limit": k, "files": nfiles})
+            runs += 1
+            continue
         runs += 1
         best, nsrc = max_active_sources(p.stdout)
         if nsrc != nfiles:
